@@ -39,7 +39,6 @@ import re
 import signal
 import subprocess
 import sys
-import time
 
 from vlib import common, helpers
 from vlib.common import Failure, Stats
@@ -765,7 +764,7 @@ def case_strategy(process=False):
             stages = [stage(form == "out" and j == ns - 1) for j in range(ns)]
             # external stages only upstream of alias stages: an alias stage in front of a `vexit` that exits
             # without reading may be torn down before its thread has run (pipeline plumbing, C06/C09)
-            for j in range(ns - 1, 0, -1):
+            for j in range(1, ns):
                 if stages[j]["ext"] and not stages[j - 1]["ext"]:
                     stages[j]["ext"] = False
             lf = {"t": "leaf", "form": form, "cls": draw(hs.sampled_from(["py", "np"])),
@@ -1082,12 +1081,19 @@ def main(run):
         "expression statements over <= %d single-stage leaves: shapes %s x 26 leaf variants (5 forms x code {0,1} x "
         "2 lexical classes, + @$() argument with outer/inner failure x 2 classes) x 4 flag settings"
         % (nmax, [s[1] for s in small_shapes(nmax)]))
-    per = run.n(5600, 192000) // nw
+    per = run.n(8000, 192000) // nw
     common.pool_map(run, __name__, "worker_random",
                     [(common.worker_seed(run.seed, w), per, run.scratch) for w in range(nw)], procs=nw)
-    pper = max(1, run.n(16, 320) // nw)
+    pper = max(1, run.n(24, 320) // nw)
     common.pool_map(run, __name__, "worker_process",
                     [(common.worker_seed(run.seed, 200 + w), pper, run.scratch) for w in range(nw)], procs=nw)
+    missing = [lab for lab in (["form:" + f for f in FORMS] + ["kind:" + k for k in KINDS] +
+                               ["flags:R%dC%d" % (r, c) for r in (0, 1) for c in (0, 1)] +
+                               ["class:py", "class:np", "deco:raise", "deco:ignore", "stages:2", "stages:3",
+                                "has-not", "has-parens", "external-stage", "process-run:c", "process-run:script"])
+               if not run.stats.hist.get(lab)]
+    if missing:
+        raise common.HarnessError("generator incomplete: no case with %s" % missing)
     run.assumptions += [
         "truth value of an operand is the documented return value of its form: bare/![]/!() pipeline object (exit code "
         "of the last stage), $() captured text (non-empty = true), $[] None (false); the property text's 'over exit "
